@@ -477,6 +477,7 @@ func (l *lexer) scan() {
 					l.ctx = fileContext
 					p += 7
 					l.column += 7
+					c = l.src[p] // '>' or a space, it can be a newline
 				} else if c == '"' || c == '\'' {
 					l.ctx = ast.ContextCSSString
 					quote = c
@@ -498,6 +499,7 @@ func (l *lexer) scan() {
 						quote = 0
 						p += 7
 						l.column += 7
+						c = l.src[p] // '>' or a space, it can be a newline
 					}
 				}
 
@@ -508,6 +510,7 @@ func (l *lexer) scan() {
 					jsComment = jsCommentNone
 					p += 8
 					l.column += 8
+					c = l.src[p] // '>' or a space, it can be a newline
 				} else if jsComment == jsCommentLine {
 					if c == '\n' || c == '\r' {
 						jsComment = jsCommentNone
@@ -550,6 +553,7 @@ func (l *lexer) scan() {
 						quote = 0
 						p += 8
 						l.column += 8
+						c = l.src[p] // '>' or a space, it can be a newline
 					}
 				}
 
@@ -559,6 +563,7 @@ func (l *lexer) scan() {
 					l.ctx = fileContext
 					p += 8
 					l.column += 8
+					c = l.src[p] // '>' or a space, it can be a newline
 				} else if c == '"' {
 					l.ctx = ast.ContextJSONString
 					quote = '"'
@@ -580,6 +585,7 @@ func (l *lexer) scan() {
 						quote = 0
 						p += 8
 						l.column += 8
+						c = l.src[p] // '>' or a space, it can be a newline
 					}
 				}
 
